@@ -274,6 +274,9 @@ def run_failure(args):
     # (so that faults further down the file come after the first neighbor was parsed completely)
     noproc = session.endswith('-noproc')
     norib = session.endswith('-norib')
+    # '<session>-second': the refused file has a second neighbor after the running one, the fault is in that second section
+    # (the first section, with its new routes, was parsed completely), and the good file given afterwards is the OLD one
+    second = session.endswith('-second')
     session = session.split('-')[0]
     with World(without_processes(config(old)) if noproc else config(old)) as wd:
         env = Env(wd, hold=30, script=[], config_name='active')
@@ -290,7 +293,7 @@ def run_failure(args):
             wd.cfg._text = False
             wd.cfg._configurations[:] = ['/nonexistent/verif/exabgp.conf']
         else:
-            lines = (config(new, norib=True, extra=SECOND) if norib else config(new)).split('\n')
+            lines = (config(new, norib=True, extra=SECOND) if norib else config(new, extra=SECOND) if second else config(new)).split('\n')
             body_idx = [i for i, l in enumerate(lines) if l.strip()]
             if line_idx >= len(body_idx):
                 return [], ('skip',), 0
@@ -345,7 +348,8 @@ def run_failure(args):
         # a good file after the refused one must be applied like any other reload
         if session == 'up':
             wd.cfg._text = True
-            wd.set_config(config(new))
+            after_good = old if second else new
+            wd.set_config(config(after_good))
             wd.signal('RELOAD')
             wd.settle()
             wd.advance(1.0)
@@ -356,10 +360,12 @@ def run_failure(args):
                 cur = env.current()
                 if cur is not None:
                     t, bad = peer_table(sm, cur.index)
-                    want = dict(table_of(new))
+                    want = dict(table_of(after_good))
                     want[w.nlri_key(w.nlri_ip(1, 1, '10.8.0.0', 24))] = ('2.2.2.2', None)
                     if t != want:
-                        viols.append((f'reload-after-failed-one-wrong-table:{fault}', f'after a failed reload ({fault}) then the valid file, the peer holds {sorted(t)} expected {sorted(want)}'))
+                        extra_r = sorted(k for k in t if k not in want)
+                        viols.append((f'reload-after-failed-one-wrong-table:{fault}' + (':routes-of-the-refused-file' if extra_r and all(k in table_of(new) for k in extra_r) else ''),
+                                      f'after a failed reload ({fault}) then a valid file, the peer holds {sorted(t)} expected {sorted(want)}'))
     return _dedup(viols), ('failed', fault, session), 0
 
 
@@ -431,6 +437,13 @@ def plan(tier):
         for li in range(nlines - 1, nl2):
             for fault in FAULTS:
                 for sess in ('up-norib', 'down-norib'):
+                    fail.append((old, new, li, fault, sess))
+        # the refused file has a complete first section (with other routes than the running ones) and fails in a second
+        # neighbor; the good file given afterwards is the running one again
+        nl3 = len([l for l in config(new, extra=SECOND).split('\n') if l.strip()])
+        for li in range(nlines - 1, nl3):
+            for fault in FAULTS:
+                for sess in ('up-second', 'down-second'):
                     fail.append((old, new, li, fault, sess))
         # the running configuration without any helper program, the refused file with one: every third line
         for li in range(0, nlines, 3 if tier == 'quick' else 1):
